@@ -34,7 +34,7 @@ CHECKS["C02"] = dict(
     engine="vsched",
     category="model_checking",
     technique="stateless model checking of the implementation: deviation-bounded DFS with happens-before caching under a controlled scheduler; wire judged by an independent reference decoder",
-    text="2-3 concurrent emitters (1-2 events each, 0-2 attachments) on one connection in both directions are explored up to the deviation bound: on the server the frames handed to a harness-implemented Engine.IO socket with a slow Send, on the Go client the POST bodies of the real polling transport over an in-process link. A reference decoder written from the v5 protocol requires every packet to be a header followed by exactly its own attachments and every emitter's events to appear in program order. Handler-entry order of events emitted in a row is checked on both sides; the inversion caused by per-packet dispatch goroutines is a known finding keyed by its spawn site, any other inversion fails the check.",
+    text="2-3 concurrent emitters (1-2 events each, 0-2 attachments) on one connection in both directions are explored up to the deviation bound: on the server the frames handed to a harness-implemented Engine.IO socket with a slow Send, on the Go client the POST bodies of the real polling transport over an in-process link, and on the server again over the REAL Engine.IO polling transport read by a slow poller (batches parked in the transport between two polls while further flushes happen, up to 4 attachments per event; the GET bodies are decoded). A reference decoder written from the v5 protocol requires every packet to be a header followed by exactly its own attachments and every emitter's events to appear in program order. Handler-entry order of events emitted in a row is checked on both sides; the inversion caused by per-packet dispatch goroutines is a known finding keyed by its spawn site, any other inversion fails the check.",
     note="Trusted: vsched semantics; the in-process link as a settled polling transport; set-up (handshake) runs on the default schedule, deviations are spent after it. Scope: <=3 emitters, bound 4/2 (quick) and 6/4 (thorough). WebSocket/upgrade wire not covered here (see C07).",
     design="3/C02")
 
@@ -42,7 +42,7 @@ CHECKS["C12"] = dict(
     engine="vsched",
     category="model_checking",
     technique="bounded exhaustive enumeration of middleware chains executed on the real server under the controlled scheduler (virtual time), plus deviation-bounded exploration of concurrent connects",
-    text="Every namespace-middleware chain of length <= 3 over {accept, join+accept, reject with error / string / struct, join+reject} plus chains of 4-5 with one rejection at each position, on '/' and '/custom', is run against the real sio.Server through a harness-implemented Engine.IO socket; the oracle is the statement itself: invocation order is a prefix of registration order ending at the first rejection, exactly one CONNECT or CONNECT_ERROR carrying the rejection, connection handlers only for admitted sockets, and no trace of a rejected socket in the namespace list, the adapter's raw room indexes or the connection. 2-3 clients connecting at once with a middleware blocked on a gate are explored to the deviation bound. Per-socket event middlewares: chains of <= 2 x six handler signatures (no args, string, int, string+int, with ack) x accept/reject.",
+    text="Every namespace-middleware chain of length <= 3 over {accept, join+accept, reject with error / string / struct, join+reject} plus chains of 4-5 with one rejection at each position, on '/' and '/custom', is run against the real sio.Server through a harness-implemented Engine.IO socket; the oracle is the statement itself: invocation order is a prefix of registration order ending at the first rejection, exactly one CONNECT or CONNECT_ERROR carrying the rejection, connection handlers only for admitted sockets, and no trace of a rejected socket in the namespace list, the adapter's raw room indexes or the connection. 2-3 clients connecting at once with a middleware blocked on a gate are explored to the deviation bound. Per-socket event middlewares: chains of <= 2 x six handler signatures (no args, string, int, string+int, with ack) x accept/reject; and chains over {accept, reject, reject iff the first argument is 'bad'} x seven sets of 1-3 On/Once handlers on the same event x seven sequences of 1-3 accepted/rejected occurrences (also of an unrelated event): a rejected occurrence reaches no handler, an accepted one reaches each registered handler exactly once after the whole chain has seen it.",
     note="Trusted: vsched semantics; rig R1 (harness speaks Socket.IO frames by hand). Scope: chains <= 5, <= 3 concurrent clients, bound 2 (quick) / 3 (thorough).",
     design="3/C12")
 
@@ -65,7 +65,7 @@ CHECKS["C05"] = dict(
     engine="vsched",
     category="model_checking",
     technique="explicit-state BFS over protocol-level operation histories replayed on the real server against a reference routing model, plus deviation-bounded schedule exploration of server and Go client under a controlled scheduler",
-    text="Server: BFS (canonical state = joined namespaces per connection) over CONNECT / EVENT / EVENT+ack / DISCONNECT / nsp.Emit / socket.Emit / a cross-namespace ack race on 2 connections x the look-alike namespaces '/', '/a', '/ab', '/a/b' plus a non-existent one; every history is replayed on the real sio.Server through harness-implemented Engine.IO sockets and compared after every step with a routing model (frames per connection, handler invocations and disconnect reports per socket, namespace socket lists, connection closed iff an unjoined namespace was addressed). Two connections in look-alike namespaces run concurrently to the bound. Go client: a raw Engine.IO endpoint (the repo's eio.Server driven by hand) answers the CONNECTs of a 3-socket Manager in all 6 orders with events placed before/after each reply; a second namespace is connected and used at once on an open connection against a real server.",
+    text="Server: BFS (canonical state = joined namespaces per connection + how each departed socket left, so a rejoin after every way of leaving is explored) over CONNECT / CONNECT whose connection handler kicks the socket / EVENT / EVENT+ack / DISCONNECT / server-side kick / nsp.Emit / socket.Emit / a cross-namespace ack race on 2 connections x the look-alike namespaces '/', '/a', '/ab', '/a/b' plus a non-existent one; every history is replayed on the real sio.Server through harness-implemented Engine.IO sockets and compared after every step with a routing model (frames per connection, handler invocations and disconnect reports per socket, namespace socket lists, connection closed iff an unjoined namespace was addressed). Two connections in look-alike namespaces run concurrently to the bound. Go client: a raw Engine.IO endpoint (the repo's eio.Server driven by hand) answers the CONNECTs of a 3-socket Manager in all 6 orders with events placed before/after each reply; a second namespace is connected and used at once on an open connection against a real server. A socket that leaves its namespace around its connection handler (kicked by the handler, kicked by a racing DisconnectSockets, client DISCONNECT during a slow handler) and then rejoins is explored to bound 3: the other namespace keeps working, the rejoin is admitted as a new socket, the connection stays open.",
     note="Trusted: routing model; rigs R1/R2/R3; vsched semantics. Scope: 2 connections, 5 namespaces, BFS depth 3 (quick) / 4 (thorough), bound 1-2 (quick) / 2-3 (thorough).",
     design="3/C05")
 CHECKS["C09"] = dict(
@@ -87,7 +87,7 @@ CHECKS["C15"] = dict(
     engine="vsched",
     category="model_checking",
     technique="exhaustive grid over the back-off function with the random draw scripted; real Manager<->Server pair under the controlled scheduler in virtual time for outage enumeration (fault enumeration) and deviation-bounded exploration of offline traffic",
-    text="Back-off: full grid of (delay, max, jitter incl. invalid ones, attempt 0..70 and overflowing values, 21 random draws): delay in (0, max], first delay from ReconnectionDelay, no panic. Reconnect machine: the first connection is cut abruptly and the next j = 0..5 dials fail (refused at once, or after a 20 s dial timeout) with attempt limit 0..5, plus two outages in a row; the timestamped reconnect_attempt / reconnect_error / reconnect_failed / reconnect / connect / disconnect events are judged exactly in virtual time. Offline traffic: all 24 orders of {plain, volatile, ack, ack+timeout} emitted between the application's disconnect and connect callbacks, before/during/after placements, and a server that greets with an ack request, explored to the deviation bound: non-volatile events arrive exactly once on the new session, volatile ones never, each ack callback once.",
+    text="Back-off: full grid of (delay, max, jitter incl. invalid ones, attempt 0..70 and overflowing values, 21 random draws): delay in (0, max], first delay from ReconnectionDelay, no panic. Reconnect machine: the first connection is cut abruptly and the next j = 0..5 dials fail (refused at once, or after a 20 s dial timeout) with attempt limit 0..5, plus two outages in a row; the timestamped reconnect_attempt / reconnect_error / reconnect_failed / reconnect / connect / disconnect events are judged exactly in virtual time. Offline traffic: all 24 orders of {plain, volatile, ack, ack+timeout} emitted between the application's disconnect and connect callbacks, before/during/after placements, a server that greets with an ack request, and an emitter on another goroutine that emits at the very moment the reconnection completes (racing the client's handling of the CONNECT reply), explored to the deviation bound: non-volatile events arrive exactly once on the new session, volatile ones never, each ack callback once.",
     note="Trusted: vsched virtual clock; in-process link as the network (dial = handshake request). Handler-entry order is not judged here (C02 known finding). Server handlers are registered in a namespace middleware (before the CONNECT reply); the async-connection-handler race is C01's.",
     design="3/C15")
 CHECKS["C17"] = dict(
@@ -123,8 +123,8 @@ CHECKS["C14"] = dict(
     engine="vsched",
     category="model_checking",
     technique="fault enumeration in exact virtual time (every black-hole moment x flavour x (pingInterval,pingTimeout)) on the real Engine.IO client/server pair under the controlled scheduler, plus deviation-bounded exploration of live and dead peers",
-    text="Dead peer: for all 9 (I,T) in {1,2,3}s^2 the in-process link turns into a black hole before each request index, mid-request, and at every quarter-interval instant (both directions / responses only / with application traffic in flight): both sides must report ping timeout at virtual time <= t_blackhole + I + T and never earlier than the last answered heartbeat + T (exact: virtual time has no slack). Live peer: idle and with a sender on either side at phase offsets {0, I/4, I/2, 3I/4} for 5(I+T), explored with thread-choice deviations: never any close, all messages delivered. Narrow: the real server socket against a hand-played client withholding pong k.",
-    note="Trusted: vsched virtual clock (early-timer deviations off); polling transport only (websocket / during-upgrade need the duplex rig of C07). Duplicated pongs and link latency are recorded as observations, not verdicts.",
+    text="Dead peer: for all 9 (I,T) in {1,2,3}s^2 the in-process link turns into a black hole before each request index, mid-request, and at every quarter-interval instant (both directions / responses only / with application traffic in flight): both sides must report ping timeout at virtual time <= t_blackhole + I + T and never earlier than the last answered heartbeat + T (exact: virtual time has no slack). Live peer: idle and with a sender on either side at phase offsets {0, I/4, I/2, 3I/4} for 5(I+T), explored with thread-choice deviations: never any close, all messages delivered. Heartbeat inside an upgrade: the live pair upgrades to the duplex pipe (real upgrade state machines, latency L=T/10 per leg on the pipe and 0 or L on the polling link) started so that ping 1 / 2 comes due k*L/2 after the start of the upgrade, k=-2..9 (before, inside every phase of, on every boundary of and after the upgrade), all nine configurations at the default schedule plus thread-choice deviations from the start of the upgrade on. Narrow: the real server socket against a hand-played client withholding pong k.",
+    note="Trusted: vsched virtual clock (early-timer deviations off); polling transport and the duplex pipe of rig R4 as upgrade target (the websocket/QUIC byte transports themselves are not under the scheduler). Duplicated pongs and link latency are recorded as observations, not verdicts.",
     design="3/C14")
 
 CHECKS["C01"] = dict(
@@ -139,7 +139,7 @@ CHECKS["C07"] = dict(
     engine="vsched",
     category="model_checking",
     technique="stateless model checking of the real upgrade state machines (client tryUpgradeTo/finishUpgradeTo, server maybeUpgrade/upgradeTo, polling Discard/NOOP/re-send) under a controlled scheduler, with fault enumeration over every failure step of the candidate transport",
-    text="A real Engine.IO client and server run over the in-process polling link; numbered text and binary messages are sent in both directions by two sender threads while the upgrade is driven over a reliable duplex pipe handed to the real upgrade code as candidate transport. All schedules up to the deviation bound are explored for the fault-free upgrade and for: handshake refused, probe ping lost, probe pong lost (stall until the upgrade timeout in virtual time), pipe cut before ping / before pong / before UPGRADE, UPGRADE lost. Oracle: the multiset of messages received on each side equals the sent one (nothing lost or duplicated), UpgradeDone once and both sides on the new transport after a fault-free upgrade; after a failed attempt no close, both sides still on polling and traffic sent afterwards is delivered; a loss after the client has swapped may only end the connection with a reported close.",
+    text="A real Engine.IO client and server run over the in-process polling link; numbered text and binary messages are sent in both directions by two sender threads while the upgrade is driven over a reliable duplex pipe handed to the real upgrade code as candidate transport. All schedules up to the deviation bound are explored for the fault-free upgrade and for: handshake refused, probe ping lost, probe pong lost (stall until the upgrade timeout in virtual time), pipe cut before ping / before pong / before UPGRADE, UPGRADE lost. Oracle: the multiset of messages received on each side equals the sent one (nothing lost or duplicated), UpgradeDone once and both sides on the new transport after a fault-free upgrade; after a failed attempt no close, both sides still on polling and traffic sent afterwards is delivered; a loss after the client has swapped may only end the connection with a reported close. The same upgrade is then run under a real Socket.IO server and a real Socket.IO client (Manager) exchanging numbered events with 0-2 binary attachments: pure schedule exploration, and a timed grid (latency of the answer to the in-flight poll 0..4.5 L x emitters starting at every half L of the upgrade x gap 0/L, pipe latency L) explored to bound 1-2; oracle: each application sees every event exactly once with its own attachments and nobody is disconnected.",
     note="Trusted: vsched semantics; rig R4 (ordered reliable message pipe named 'webtransport') replaces the nhooyr WebSocket / QUIC byte transports, which cannot be put under the scheduler; the real polling->websocket upgrade end to end over loopback is exercised by C01's matrix (transport 'upgrade') without schedule control. Scope: 2 (quick) / 3 (thorough) messages each way, bound 2/3.",
     design="3/C07")
 
@@ -147,7 +147,7 @@ CHECKS["C16"] = dict(
     engine="vsched",
     category="model_checking",
     technique="stateless model checking of two-thread API programs under a controlled scheduler in a -race build: the race detector judges every explored schedule under its true happens-before relation; deadlock and held-mutex detection by the scheduler",
-    text="Every unordered pair (including an operation with itself) of operations from a 26-operation server alphabet (Emit with/without ack/binary, Join, Leave, Rooms, namespace and room broadcasts, On/Off handlers, Use, Disconnect(false/true), SocketsJoin, DisconnectSockets, FetchSockets, Server.Close, incoming events/acks/binary events/DISCONNECT/transport close, another client's CONNECT), a 15-operation Go-client alphabet and an 8-operation adapter alphabet (in-memory and session-aware) runs as a two-thread program; every server operation is also issued from inside an event handler, a disconnecting handler and an ack callback against concurrent operations (797 programs). All schedules to the deviation bound are executed in a -race build in which the scheduler's own hand-offs are hidden from TSan and every modelled primitive publishes exactly its Go-memory-model edge, so a report is a race under the explored schedule's real happens-before relation; verdicts: TSan report whose racing access lies in repository code, a thread blocked for ever on a lock/WaitGroup (incl. lock cycles and locks held by exited threads), a mutex held by an exited thread at quiescence, an uncaught panic.",
+    text="Every unordered pair (including an operation with itself) of operations from a 26-operation server alphabet (Emit with/without ack/binary, Join, Leave, Rooms, namespace and room broadcasts, On/Off handlers, Use, Disconnect(false/true), SocketsJoin, DisconnectSockets, FetchSockets, Server.Close, incoming events/acks/binary events/DISCONNECT/transport close, another client's CONNECT), an 18-operation Go-client alphabet (a Manager with two connected sockets; incl. a third namespace connecting, the other socket disconnecting and the link breaking, which starts the reconnection machinery) and an 8-operation adapter alphabet (in-memory and session-aware) runs as a two-thread program; every server operation is also issued from inside an event handler, a disconnecting handler and an ack callback against concurrent operations (about 850 programs). All schedules to the deviation bound are executed in a -race build in which the scheduler's own hand-offs are hidden from TSan and every modelled primitive publishes exactly its Go-memory-model edge, so a report is a race under the explored schedule's real happens-before relation; verdicts: TSan report whose racing access lies in repository code, a thread blocked for ever on a lock/WaitGroup (incl. lock cycles and locks held by exited threads), a mutex held by an exited thread at quiescence, an uncaught panic.",
     note="Trusted: the TSan integration (self-tested by harness/racetest at set-up: locked pair silent, unlocked pair reported); channel operations publish a slightly stronger edge than Go guarantees (can hide, never invent a race); memory-order effects beyond happens-before are not produced. Scope: 2 threads x 1 operation, bound 1 (quick) / 2 (thorough); the quantifier's random 2..16-goroutine programs and GOMAXPROCS variation are replaced by exhaustive small-scope enumeration.",
     design="3/C16")
 
